@@ -43,7 +43,11 @@ partial def decGoVal (j : Json) : Except String GoVal := do
     match j.getObjVal? "$go" with
     | .ok (.str "typednil") => return .typedNil
     | .ok (.str "nan") => return .nan
+    | .ok (.str "nan32") => return .nan
     | .ok (.str "inf") => return .inf
+    | .ok (.str "ninf") => return .inf
+    | .ok (.str "inf32") => return .inf
+    | .ok (.str "ninf32") => return .inf
     | .ok (.str "badfunc") => return .badFunc
     | _ =>
     match j.getObjVal? "$thunk" with
